@@ -80,6 +80,14 @@ case("random-bypass-be", "C09", B, '        if "positions" not in spec:\n       
 case("pl-weights-consistent", "C09", "schwifty/checksum/poland.py", "weights = [3, 9, 7, 1, 3, 9, 7]", "weights = [3, 9, 7, 1, 3, 9, 1]", S)
 case("gen-key-format", "C06", B, 'algorithms.get(f"{country_code}:default")', 'algorithms.get(f"{country_code}-default")', V, "R06-dispatch")
 case("reader-field-renamed", "C07", B, 'bank.get("checksum_algo", "default")', 'bank.get("checksum_algorithm", "default")', V, "R07-dispatch")
+case("iban-lookahead-alias99", "C02", I, 're.fullmatch(r"[A-Z]{2}[0-9]{2}[A-Z0-9]*", self)', 're.fullmatch(r"[A-Z]{2}(?!0[01])[0-9]{2}[A-Z0-9]*", self)', V, "recompute",
+     more=[{"file": I, "old": "if self.numeric % 97 != 1 or not checksum_algo.validate(\n            [self.bban, self.country_code], self.checksum_digits\n        ):", "new": "if self.numeric % 97 != 1:"}])
+case("iban-lookahead-benign", "C01,C02", I, 're.fullmatch(r"[A-Z]{2}[0-9]{2}[A-Z0-9]*", self)', 're.fullmatch(r"(?=[A-Z])[A-Z]{2}[0-9]{2}[A-Z0-9]*", self)', S)
+case("bic-historic-countries", "C04", BIC, "        return countries.get(alpha_2=self.country_code)", "        return countries.get(alpha_2=self.country_code) or historic_countries.get(alpha_2=self.country_code)", V, "R04-country",
+     more=[{"file": BIC, "old": "from pycountry import countries  # type: ignore", "new": "from pycountry import countries  # type: ignore\nfrom pycountry import historic_countries  # type: ignore"}])
+case("bic-not-country-benign", "C04,C05", BIC, "        if self.country is None:", "        if not self.country:", S)
+case("nfkc-normalise", "C10", C, "        return super().__new__(cls, clean(value))", '        return super().__new__(cls, clean(unicodedata.normalize("NFKC", value)))', V, "R10-norm",
+     more=[{"file": C, "old": "import copy\n", "new": "import copy\nimport unicodedata\n"}])
 # ---- C10 / C11 -----------------------------------------------------------------------------------------------
 case("clean-ascii-ws", "C10", C, '_clean_regex = re.compile(r"\\s+")', '_clean_regex = re.compile(r"[ \\t\\n]+")', V, "whitespace")
 case("clean-re-ascii", "C10", C, '_clean_regex = re.compile(r"\\s+")', '_clean_regex = re.compile(r"\\s+", re.ASCII)', V, "whitespace")
